@@ -1,10 +1,10 @@
 from ..streams import aero as aero_streams, stress, jac_wingbox
 from ..oracles import c07
 
-MODELS = ["Aero", "Stress", "Wingbox"]
+MODELS = ["Aero", "Stress", "Wingbox", "Beam", "BeamTables"]
 STREAMS = [aero_streams.stream_points_and_mesh, aero_streams.stream_eval_mtx, aero_streams.stream_geometry_and_flow, stress.stream_vonmises, jac_wingbox.stream_wingbox_geometry]
-ORACLES = [c07.oracle_aero_mirror, c07.oracle_left_right, c07.oracle_struct_mirror, c07.oracle_wingbox_geometry_mirror, c07.oracle_geometry_full_span]
-UNPROVED = ["fem_mirror_covariant (K' = S P K P^T S for the mirrored frame) and load-source mirror covariance are validated by the SpatialBeamAlone mirror oracle only",
+ORACLES = [c07.oracle_aero_mirror, c07.oracle_left_right, c07.oracle_struct_mirror, c07.oracle_wingbox_geometry_mirror, c07.oracle_geometry_full_span, c07.oracle_element_mirror]
+UNPROVED = ["the ELEMENT-level mirror covariance of the stiffness matrix is validated on the implementation (oracle element-matrices-mirror); from it the system-level covariance is proved (C07_structure_assembled_system_mirror_covariant); load-source mirror covariance: oracle only",
             "the end-to-end statement 'all circulations / forces / coefficients of the mirrored configuration are the mirrored ones' is assembled from the proved building blocks by the oracle's mirror pairs, not as one theorem",
             "sweep/dihedral/taper/rotate on right-half meshes: refuted on the real code by the oracle (recorded findings); their Gallina models live under C13"]
 ASSUMPTIONS = ["five recorded findings: wingbox stress recovery end (F04) and Sweep / Dihedral / Taper / Rotate on right-half meshes (F05-*)"]
